@@ -284,6 +284,15 @@ def k2_cases(tier):
     return gen
 
 
+def cold_family_cases():
+    """First use of freshly loaded type objects is concurrent: every single pre-emption, every family member, both readers
+    (lazily initialised per-type state that is published before it is complete shows only here)."""
+    for name, defs, datas, ptr in K2_FAMILY:
+        for compiled in (False, True):
+            for endian in ("<", ">"):
+                yield {"defs": defs, "root": "Root", "cfg": {"endian": endian, "align": False, "ptr": ptr, "compiled": compiled}, "datas": list(datas), "cold": True, "family": name}
+
+
 def stages(tier):
     q = tier == "quick"
     return [
@@ -291,5 +300,6 @@ def stages(tier):
         HypStage("random-k4", lambda: conc_case(with_schedule=True), examples=200 if q else 3000, shards=4 if q else 8),
         HypStage("k1-cold", lambda: conc_case(with_schedule="cold"), examples=1 if q else 10, shards=4 if q else 8),
         HypStage("k1-opcode", lambda: conc_case(with_schedule="opcodes"), examples=1 if q else 6, shards=4 if q else 16),
+        EnumStage("k1-cold-family", cold_family_cases, shards=8, scope="every single pre-emption at source-line granularity of the FIRST concurrent use of freshly loaded types: the six definitions of K2_FAMILY x both readers x both byte orders"),
         EnumStage("k2-exhaustive", k2_cases(tier), shards=16, scope="every two-preemption schedule 0->1->0 at source-line granularity of the fixed definition family (K2_FAMILY: %s) x both readers, two threads" % ("first member" if q else "all six members x both byte orders")),
     ]
